@@ -973,11 +973,31 @@ func genCloneCase(cx *CheckCtx, i int) *Case {
 	}
 	steps := 5 + r.Intn(cx.N(25, 55))
 	for s := 0; s < steps; s++ {
-		switch r.Intn(5) {
+		switch r.Intn(6) {
 		case 0, 1:
 			nr := len(regs) + 1
 			c.Ops = append(c.Ops, Op{Kind: OpClone, S: nr, S2: pick(r, regs)})
 			regs = append(regs, nr)
+		case 5:
+			// a held statement (often a clone nothing was appended to yet) handed ALONE to the
+			// Group form of Add — `t := g.Add(c)` — and tokens chained onto what Add returns: `t` is
+			// a new statement holding `c`; `c` itself must stay what it was
+			nr := len(regs) + 1
+			src := pick(r, regs)
+			if r.Chance(50) {
+				c.Ops = append(c.Ops, Op{Kind: OpClone, S: nr, S2: src})
+				regs = append(regs, nr)
+				src = nr
+				nr++
+			}
+			c.Ops = append(c.Ops, Op{Kind: OpFNew, S: nr, F: 0, Items: []SItem{&AddItems{Args: []Arg{Ref{Reg: src}}}}})
+			regs = append(regs, nr)
+			if r.Chance(70) {
+				c.Ops = append(c.Ops, Op{Kind: OpApp, S: nr, Items: toks()})
+			}
+			if r.Chance(50) {
+				observe(src)
+			}
 		default:
 			c.Ops = append(c.Ops, Op{Kind: OpApp, S: pick(r, regs), Items: toks()})
 		}
@@ -1021,6 +1041,16 @@ func oracleC20(cx *CheckCtx, runs []*CaseRun) []Finding {
 			case OpClone:
 				origin[o.S] = o.S2
 				own[o.S] = nil
+			case OpFNew:
+				// t := g.Add(c): a new statement whose first item is the statement c
+				if len(o.Items) == 1 {
+					if ai, ok := o.Items[0].(*AddItems); ok && len(ai.Args) == 1 {
+						if rf, ok := ai.Args[0].(Ref); ok {
+							origin[o.S] = rf.Reg
+							own[o.S] = nil
+						}
+					}
+				}
 			case OpFAdd:
 				if len(o.Args) == 1 {
 					if rf, ok := o.Args[0].(Ref); ok {
